@@ -68,6 +68,9 @@ func runC15(cfg *config) *Report {
 			continue
 		}
 		populateIDs(f, r)
+		if i%4 == 3 {
+			exoticIDs(f)
+		}
 		if i%3 == 1 {
 			// a caller who prepares ONE control record (its ID and user field) and hands it to every bundle of a cash
 			// letter, then builds: each built bundle must come out with its own totals
@@ -258,4 +261,37 @@ func runC15(cfg *config) *Report {
 		}
 	}
 	return rep
+}
+
+// exoticIDs: the client-chosen ID of every record and container set to text a JSON encoder has to escape or carry as
+// multi-byte UTF-8 (IDs never reach the X9 bytes; the JSON round trip must keep them character for character)
+func exoticIDs(f *icl.File) {
+	vals := []string{"vue-é-01", "q\"uote\\back", "tab\there", "<&>", "sep\u2028line", "日本-7", "nul\x01ctl", "emoji-😀"}
+	n := 0
+	var walk func(v reflect.Value)
+	walk = func(v reflect.Value) {
+		switch v.Kind() {
+		case reflect.Ptr:
+			if !v.IsNil() {
+				walk(v.Elem())
+			}
+		case reflect.Struct:
+			if fld := v.FieldByName("ID"); fld.IsValid() && fld.Kind() == reflect.String && fld.CanSet() {
+				fld.SetString(fmt.Sprintf("%s-%d", vals[n%len(vals)], n))
+				n++
+			}
+			for i := 0; i < v.NumField(); i++ {
+				if v.Type().Field(i).PkgPath == "" {
+					walk(v.Field(i))
+				}
+			}
+		case reflect.Slice:
+			if v.Type().Elem().Kind() != reflect.Uint8 {
+				for i := 0; i < v.Len(); i++ {
+					walk(v.Index(i))
+				}
+			}
+		}
+	}
+	walk(reflect.ValueOf(f))
 }
